@@ -59,6 +59,14 @@ Fixpoint carriers_rev_aux (acc : list (N * param)) (evs : list event) : list (N 
   | Accept _ :: evs' => carriers_rev_aux acc evs'
   end.
 
+Definition carriers_rev := carriers_rev_aux [].
+
+Definition ev_step (r : sring) (e : event) : sring :=
+  match e with Carrier cid p => carrier_step r cid p | Accept _ => r end.
+
+(* the map after the events pre, starting from an empty map of capacity cap *)
+Definition state_after (cap : nat) (pre : list event) : sring := fold_left ev_step pre (new addr ANil cap).
+
 (* specification of one attribution: the most recent carrier with this ClientID among the
    last cap carriers decides; if there is none the bridge is told "no address" *)
 Definition spec_attr (cap : nat) (cs : list (N * param)) (cid : N) : addr :=
